@@ -209,6 +209,7 @@ pub fn coherence_part(opts: &Opts, rep: &mut Report) {
                         props: &props,
                         matcher: &mut matcher,
                         case_id: format!("U+{u:04X}"),
+                        believed: None,
                         attribute_to: Some("C16"),
                     };
                     let h_reprs: &[bool] = if case.hay.ascii { &[true, false] } else { &[false] };
